@@ -45,6 +45,17 @@ func (b *EventBox) Set(event EventType, value any) {
 	b.cond.L.Unlock()
 }
 
+// Update turns on the event type on the box with the value the callback
+// derives from the value that is still pending (nil if there is none)
+func (b *EventBox) Update(event EventType, callback func(pending any) any) {
+	b.cond.L.Lock()
+	b.events[event] = callback(b.events[event])
+	if _, found := b.ignore[event]; !found {
+		b.cond.Broadcast()
+	}
+	b.cond.L.Unlock()
+}
+
 // Clear clears the events
 // Unsynchronized; should be called within Wait routine
 func (events *Events) Clear() {
